@@ -4,7 +4,7 @@ from .. import gen
 from ..gen import Opt, schema_lines, LIST, MULTI, TITLE, NO_TITLE_DUPES, COMMENTS, KEYSTRVAL, dbits
 from .C17 import pw_lines
 
-THEOREMS = ["C18_addval", "C18_setnNum_nofault", "C18_setnNum", "C18_setcomment", "C18_setnStr_wellformed", "cellsOk_append", "C18_setopt_plain"]
+THEOREMS = ["C18_addval", "C18_setnNum_nofault", "C18_setnNum", "C18_setcomment", "C18_setnStr_wellformed", "cellsOk_append", "C18_setopt_plain", "C18_addlist_completes"]
 PARTIAL = ("Modelled at allocation-sequence fidelity (Confuse.Model.Fault) and proved for EVERY position k of the failing request: cfg_addval, "
            "the numeric / boolean / string indexed setters, cfg_opt_setcomment and cfg_setopt on plain options either complete - then they equal the "
            "fault-free operation - or report failure, leaving every cell of the option with the option's type (a new string cell exists only as NULL). "
@@ -99,7 +99,8 @@ def generate(rng, tier):
 
 
 # workloads whose outcome under every k is predicted by the model (Confuse.Model.Fault)
-MODELLED = {"setnint_list_append", "setnstr_scalar", "setnstr_list_append", "setnstr_pristine", "setfloat", "setcomment", "setopt_int", "setopt_strlist"}
+MODELLED = {"setnint_list_append", "setnstr_scalar", "setnstr_list_append", "setnstr_pristine", "setfloat", "setcomment", "setopt_int", "setopt_strlist",
+            "addlist3", "setlist2"}
 
 
 def _k(case):
